@@ -115,6 +115,7 @@ type EzSpec struct {
 	Flatten    bool     `json:"flatten,omitempty"`     // Params.FlattenAnonymousFields
 	EmbLeaf    bool     `json:"emb_leaf,omitempty"`    // YAML files may set the embedded struct's leaf
 	EqPath     bool     `json:"eq_path,omitempty"`     // the config file lives in a directory with '=' in its name
+	CancelAt   int      `json:"cancel_at,omitempty"`   // >0: the context is cancelled while the entry point is at work (after that many scheduling points of a bystander): it must still return
 	WatchFlags bool     `json:"watch_flags,omitempty"` // Params.FlagSource is a watching source of the application's own: it reports new flag values after the entry point has returned
 	Writes     []EzPart `json:"writes,omitempty"`
 	WriteHow   []string `json:"write_how,omitempty"` // rename | rewrite | delete-create
@@ -243,6 +244,9 @@ func genEz(seed uint64, faulty bool) *Scenario {
 	}
 	e.Linked = e.FileState == "ok" && g.pct(20)
 	e.EqPath = g.pct(30)
+	if faulty && g.pct(8) {
+		e.CancelAt = g.in(1, 120)
+	}
 	if e.Watch || g.pct(30) {
 		n := g.in(0, 4)
 		for i := 0; i < n; i++ {
@@ -266,7 +270,7 @@ func genEz(seed uint64, faulty bool) *Scenario {
 		}
 		e.Race = g.pct(50)
 	}
-	if len(e.Writes) == 0 && e.CmdLine == "" && g.pct(25) {
+	if len(e.Writes) == 0 && e.CmdLine == "" && e.CancelAt == 0 && g.pct(25) {
 		e.WatchFlags = true
 	}
 	sc.Ez = e
@@ -286,6 +290,7 @@ func genEzC09(seed uint64, faulty bool) *Scenario {
 	sc := genEz(seed, faulty)
 	sc.Prop = "C09"
 	e := sc.Ez
+	e.CancelAt = 0
 	e.WatchFlags, e.Writes, e.WriteHow, e.Race, e.CmdLine = true, nil, nil, false, ""
 	if seed%2 == 0 {
 		e.PathFrom, e.DecoyFrom = "none", ""
@@ -617,7 +622,12 @@ func runEz(sc *Scenario, res *Result, keepLog bool) {
 	must(os.WriteFile(r.decoy, e.Decoy.render(e.Format, e.Kebab), 0644))
 	unset := r.setEnv()
 	defer unset()
-	r.rendered = map[string]bool{string(e.File.render(e.Format, e.Kebab)): true, string(e.Decoy.render(e.Format, e.Kebab)): true}
+	r.rendered = map[string]bool{string(e.Decoy.render(e.Format, e.Kebab)): true}
+	if e.FileState == "ok" {
+		// (a file that is missing was never written: reading its - possibly
+		// empty - content can only be a torn read of something else)
+		r.rendered[string(e.File.render(e.Format, e.Kebab))] = true
+	}
 	for i := range e.Writes {
 		r.rendered[string(e.Writes[i].render(e.Format, e.Kebab))] = true
 	}
@@ -700,6 +710,16 @@ func runEz(sc *Scenario, res *Result, keepLog bool) {
 			}
 		}
 	})
+	if e.CancelAt > 0 {
+		r.clients++
+		s.Spawn("canceller", func() {
+			defer func() { r.done++ }()
+			for i := 0; i < e.CancelAt; i++ {
+				simrt.Yield("cancel-wait")
+			}
+			r.cancel() // SIGTERM, a start-up deadline: the service is still starting
+		})
+	}
 	if e.WatchFlags {
 		r.clients++
 		s.Spawn("flagwatch", func() {
@@ -773,7 +793,9 @@ func runEz(sc *Scenario, res *Result, keepLog bool) {
 		}
 		r.fail("stuck", "the entry point or the writer did not finish (%s)\n%s", reason, strings.Join(lines, "\n"))
 	} else {
-		r.flagOracles()
+		if e.CancelAt == 0 {
+			r.flagOracles()
+		}
 		r.oracles()
 	}
 	r.cancel()
@@ -939,6 +961,13 @@ func (r *ezRun) plausibleFiles(untilStep int) []*EzPart {
 
 func (r *ezRun) oracles() {
 	e := r.e
+	if e.CancelAt > 0 {
+		// the context ended while the entry point was at work: whatever it
+		// returned, it has returned (a call that never does is reported as
+		// stuck), and nothing is left behind (checked after the run)
+		r.probes["context-cancelled-during-start-up"]++
+		return
+	}
 	// what the entry point returned is judged by the flags it was started
 	// with; what is visible in the end by the flags reported last
 	flagsNow := e.Flags
